@@ -1,10 +1,19 @@
-// Package vsched is a cooperative scheduler + stateless explorer runtime.
+// Package vsched is the cooperative scheduler under which the instrumented bgzf code runs.
+//
+// Every goroutine of the code under test is a real goroutine that runs only while it holds the
+// baton. Before each synchronisation operation it publishes the pending operation and parks;
+// the scheduler computes the enabled set from the virtual object state, asks the explorer which
+// thread goes next, and that thread performs the operation atomically and runs to its next
+// operation. Outside an exploration (S == nil) all primitives fall through to the real Go ones
+// (pass-through mode), which is how the repository's own tests are run against the
+// instrumented build to validate the rewrite.
 package vsched
 
 import (
 	"fmt"
 	"runtime"
 	"sort"
+	"strings"
 )
 
 type OpKind uint8
@@ -23,12 +32,20 @@ const (
 	OpWgWait
 	OpYield
 	OpChoice
+	OpBlockForever
+	OpOnce
 )
 
-// object is anything with an enabledness predicate.
+var opNames = []string{"start", "send", "recv", "select", "close", "lock", "rlock", "unlock", "runlock", "wgadd", "wgwait", "yield", "choice", "nilchan", "once"}
+
 type waitable interface {
 	canSend() bool
 	canRecv() bool
+}
+
+type lockable interface {
+	canLock() bool
+	canRLock() bool
 }
 
 type selCase struct {
@@ -41,53 +58,73 @@ type pending struct {
 	obj    interface{}
 	cases  []selCase
 	hasDef bool
-	n      int // OpChoice: number of alternatives
 }
 
+// Thread is one controlled goroutine.
 type Thread struct {
-	id    int
-	hist  uint64
-	nkid  int
-	wake  chan struct{}
-	pend  pending
-	done  bool
-	sel   int // chosen select case / choice result
-	name  string
+	id   int
+	hist uint64 // rolling hash of this thread's event history (happens-before fingerprint)
+	nkid int
+	wake chan struct{}
+	pend pending
+	done bool
+	site string // where the thread was parked when the execution was torn down
 }
 
+// Point is one choice point of an execution.
 type Point struct {
-	Enabled []int // thread ids (or alternative indexes for choice points)
-	Chosen  int   // index into Enabled
-	Running int   // thread that was running when the point was reached (-1 none)
-	RunEn   bool  // running thread still enabled
-	Choice  bool  // data choice (select / map order), not a thread switch
+	N       int  // number of alternatives
+	Chosen  int  // index taken
+	RunEn   bool // thread switch point at which the running thread was still enabled
+	Choice  bool // data choice (select case, map order, harness Choose), not a thread switch
+	Running int
 }
 
+// Outcome describes one execution.
 type Outcome struct {
-	Points   []Point
-	Deadlock bool
-	Blocked  []string // descriptions of threads blocked at deadlock
-	Panic    interface{}
-	PanicStk string
-	Pruned   bool
-	Leaked   []string
-	Steps    int
+	Points    []Point
+	Deadlock  bool
+	Livelock  bool
+	Blocked   []string // "site/op" of every thread blocked at the end (deadlock or leak)
+	Leaked    bool
+	Panic     interface{}
+	PanicSite string
+	PanicStk  string
+	Pruned    bool
+	Steps     int
+	Final     uint64 // hash of all final thread histories: identical for identical executions
+	Threads   int
+}
+
+// Choices returns the choice sequence of the execution.
+func (o *Outcome) Choices() []int {
+	c := make([]int, len(o.Points))
+	for i, p := range o.Points {
+		c[i] = p.Chosen
+	}
+	return c
 }
 
 type Sched struct {
-	threads []*Thread
-	cur     *Thread
-	toSched chan *Thread
-	abort   bool
-	prefix  []int
-	out     Outcome
-	// pruning
-	visit    func(key uint64, idx int) bool // returns true to prune
+	threads  []*Thread
+	cur      *Thread
+	toSched  chan *Thread
+	abort    bool
+	prefix   []int
+	out      Outcome
+	preempts int
+	// visit is called at every thread-switch point beyond the forced prefix with the state key
+	// and the number of preemptions used so far; returning true cuts the execution.
+	visit    func(key uint64, preempts int) bool
 	maxSteps int
-	mainDone bool
+	diverged string
 }
 
+// S is the active scheduler; nil means pass-through mode.
 var S *Sched
+
+// Active reports whether the caller runs under the scheduler.
+func Active() bool { return S != nil }
 
 func mix(h, v uint64) uint64 {
 	h ^= v + 0x9e3779b97f4a7c15 + (h << 6) + (h >> 2)
@@ -96,22 +133,42 @@ func mix(h, v uint64) uint64 {
 	return h
 }
 
-// Cur returns the running thread.
-func cur() *Thread {
-	if S == nil {
-		panic("vsched: operation outside an exploration")
-	}
-	return S.cur
-}
-
-// note appends an event to the thread's happens-before hash: the event depends on the
-// thread's previous event and on dep (the hash of the event it synchronises with).
+// note appends an event to the thread's history: it depends on the thread's previous event
+// and on dep (the hash of the event it synchronises with).
 func (t *Thread) note(kind OpKind, dep uint64) uint64 {
-	t.hist = mix(mix(t.hist, uint64(kind)), dep)
+	t.hist = mix(mix(t.hist, uint64(kind)+1), dep)
 	return t.hist
 }
 
-// point parks the current thread with pending op p until the scheduler picks it.
+func cur() *Thread { return S.cur }
+
+// librarySite returns the innermost frame of the calling goroutine that lies in the library
+// proper (not vsched, not its sync shim).
+func librarySite(skip int) string {
+	pcs := make([]uintptr, 48)
+	n := runtime.Callers(skip, pcs)
+	frames := runtime.CallersFrames(pcs[:n])
+	harness := ""
+	for {
+		fr, more := frames.Next()
+		fn := fr.Function
+		if strings.Contains(fn, "github.com/biogo/hts/") && !strings.Contains(fn, "/vsched") {
+			return strings.TrimPrefix(fn, "github.com/biogo/hts/")
+		}
+		if harness == "" && !strings.Contains(fn, "/vsched") && !strings.HasPrefix(fn, "runtime.") && fn != "" {
+			harness = fn
+		}
+		if !more {
+			break
+		}
+	}
+	if harness != "" {
+		return "harness:" + harness[strings.LastIndex(harness, "/")+1:]
+	}
+	return "?"
+}
+
+// point parks the current thread with pending operation p until the scheduler picks it.
 func point(p pending) *Thread {
 	s := S
 	t := s.cur
@@ -122,31 +179,44 @@ func point(p pending) *Thread {
 	s.toSched <- t
 	<-t.wake
 	if s.abort {
+		t.site = librarySite(3)
 		runtime.Goexit()
 	}
 	return t
 }
 
-// Go starts f as a new controlled thread.
+// Go starts f as a new controlled thread (pass-through: a plain goroutine).
 func Go(f func()) {
 	s := S
+	if s == nil {
+		go f()
+		return
+	}
 	p := s.cur
 	p.nkid++
 	t := &Thread{id: len(s.threads), wake: make(chan struct{}, 1)}
 	t.hist = mix(mix(p.hist, 0x5157), uint64(p.nkid))
+	p.note(OpStart, uint64(p.nkid))
 	t.pend = pending{kind: OpStart}
 	s.threads = append(s.threads, t)
 	go s.runThread(t, f)
 }
 
+func Go1[A any](f func(A), a A)                       { Go(func() { f(a) }) }
+func Go2[A, B any](f func(A, B), a A, b B)            { Go(func() { f(a, b) }) }
+func Go3[A, B, C any](f func(A, B, C), a A, b B, c C) { Go(func() { f(a, b, c) }) }
+
 func (s *Sched) runThread(t *Thread, f func()) {
 	<-t.wake
 	defer func() {
-		if r := recover(); r != nil {
-			if s.out.Panic == nil {
-				s.out.Panic = r
-				buf := make([]byte, 8192)
-				s.out.PanicStk = string(buf[:runtime.Stack(buf, false)])
+		if !s.abort {
+			if r := recover(); r != nil {
+				if s.out.Panic == nil {
+					s.out.Panic = r
+					s.out.PanicSite = librarySite(3)
+					buf := make([]byte, 16384)
+					s.out.PanicStk = string(buf[:runtime.Stack(buf, false)])
+				}
 			}
 		}
 		t.done = true
@@ -165,8 +235,10 @@ func (s *Sched) enabled(t *Thread) bool {
 	}
 	p := &t.pend
 	switch p.kind {
-	case OpStart, OpClose, OpUnlock, OpRUnlock, OpWgAdd, OpYield, OpChoice:
+	case OpStart, OpClose, OpUnlock, OpRUnlock, OpWgAdd, OpYield, OpChoice, OpOnce:
 		return true
+	case OpBlockForever:
+		return false
 	case OpSend:
 		return p.obj.(waitable).canSend()
 	case OpRecv:
@@ -194,12 +266,7 @@ func (s *Sched) enabled(t *Thread) bool {
 	panic("vsched: bad op")
 }
 
-type lockable interface {
-	canLock() bool
-	canRLock() bool
-}
-
-func (s *Sched) stateKey() uint64 {
+func (s *Sched) stateKey(running *Thread) uint64 {
 	hs := make([]uint64, 0, len(s.threads))
 	for _, t := range s.threads {
 		v := t.hist
@@ -213,20 +280,22 @@ func (s *Sched) stateKey() uint64 {
 	for _, h := range hs {
 		k = mix(k, h)
 	}
-	if s.cur != nil {
-		k = mix(k, s.cur.hist)
+	if running != nil {
+		k = mix(k, running.hist) // who holds the baton matters for preemption accounting
 	}
 	return k
 }
 
-// decide consumes one choice: from the prefix if available else 0.
-func (s *Sched) decide(n int, pt Point) int {
+// decide consumes one choice: from the forced prefix if available, else 0.
+func (s *Sched) decide(pt Point) int {
 	idx := len(s.out.Points)
 	c := 0
 	if idx < len(s.prefix) {
 		c = s.prefix[idx]
-		if c >= n {
-			panic(fmt.Sprintf("vsched: replay divergence at point %d: choice %d of %d", idx, c, n))
+		if c >= pt.N {
+			// replaying a prefix must fit exactly; anything else is nondeterminism we do not own
+			s.diverged = fmt.Sprintf("replay divergence at point %d: choice %d of %d alternatives", idx, c, pt.N)
+			c = 0
 		}
 	}
 	pt.Chosen = c
@@ -234,30 +303,42 @@ func (s *Sched) decide(n int, pt Point) int {
 	return c
 }
 
-// Choose is a data choice point usable by harness code and shims (select, map order).
+// Choose is a data choice point (select with several ready cases, map order, harness decisions).
 func Choose(n int) int {
 	if n <= 1 {
 		return 0
 	}
 	s := S
-	en := make([]int, n)
-	for i := range en {
-		en[i] = i
+	if s == nil {
+		return 0
 	}
-	c := s.decide(n, Point{Enabled: en, Running: s.cur.id, Choice: true})
-	s.cur.note(OpChoice, uint64(c))
+	c := s.decide(Point{N: n, Running: s.cur.id, Choice: true})
+	s.cur.note(OpChoice, uint64(c)+uint64(n)<<32)
 	return c
 }
 
-// Run executes body under the scheduler following prefix then default choices.
-func Run(prefix []int, maxSteps int, visit func(key uint64, idx int) bool, body func()) Outcome {
-	s := &Sched{toSched: make(chan *Thread), prefix: prefix, visit: visit, maxSteps: maxSteps}
+// Config for one execution.
+type Config struct {
+	Prefix   []int
+	MaxSteps int
+	Visit    func(key uint64, preempts int) bool
+}
+
+// Run executes body as the main thread under the scheduler.
+func Run(cfg Config, body func()) (out Outcome, diverged string) {
+	s := &Sched{toSched: make(chan *Thread), prefix: cfg.Prefix, visit: cfg.Visit, maxSteps: cfg.MaxSteps}
+	if s.maxSteps == 0 {
+		s.maxSteps = 200000
+	}
 	return s.run(body)
 }
 
-func (s *Sched) run(body func()) Outcome {
+func (s *Sched) run(body func()) (Outcome, string) {
+	if S != nil {
+		panic("vsched: nested Run")
+	}
 	S = s
-	main := &Thread{id: 0, wake: make(chan struct{}, 1), hist: 1, name: "main"}
+	main := &Thread{id: 0, wake: make(chan struct{}, 1), hist: 1}
 	main.pend = pending{kind: OpStart}
 	s.threads = append(s.threads, main)
 	go s.runThread(main, body)
@@ -270,105 +351,111 @@ func (s *Sched) run(body func()) Outcome {
 			}
 		}
 		s.out.Steps++
-		var en []int
+		var en []*Thread
 		runEn := false
-		// canonical order: running thread first if enabled, then ascending ids
+		// canonical order: the running thread first if still enabled, then ascending ids
 		if running != nil && s.enabled(running) {
-			en = append(en, running.id)
+			en = append(en, running)
 			runEn = true
 		}
 		for _, t := range s.threads {
 			if t != running && s.enabled(t) {
-				en = append(en, t.id)
+				en = append(en, t)
 			}
 		}
 		if len(en) == 0 {
-			alive := false
 			for _, t := range s.threads {
 				if !t.done {
-					alive = true
-					s.out.Blocked = append(s.out.Blocked, fmt.Sprintf("t%d:%s", t.id, descr(&t.pend)))
-				}
-			}
-			if alive {
-				if s.threads[0].done {
-					s.out.Leaked = s.out.Blocked
-					s.out.Blocked = nil
-				} else {
-					s.out.Deadlock = true
+					if s.threads[0].done {
+						s.out.Leaked = true
+					} else {
+						s.out.Deadlock = true
+					}
 				}
 			}
 			break
 		}
-		if s.maxSteps > 0 && s.out.Steps > s.maxSteps {
-			s.out.Deadlock = true
-			s.out.Blocked = append(s.out.Blocked, "step horizon exceeded (livelock?)")
+		if s.out.Steps > s.maxSteps {
+			s.out.Livelock = true
 			break
 		}
-		idx := len(s.out.Points)
-		if s.visit != nil && idx >= len(s.prefix) {
-			s.cur = running
-			if s.visit(s.stateKey(), idx) {
+		if s.visit != nil && len(s.out.Points) >= len(s.prefix) && len(en) > 1 {
+			if s.visit(s.stateKey(running), s.preempts) {
 				s.out.Pruned = true
 				break
 			}
 		}
-		rid := -1
-		if running != nil {
-			rid = running.id
-		}
 		c := 0
 		if len(en) > 1 {
-			c = s.decide(len(en), Point{Enabled: en, Running: rid, RunEn: runEn})
+			rid := -1
+			if running != nil {
+				rid = running.id
+			}
+			c = s.decide(Point{N: len(en), Running: rid, RunEn: runEn})
+			if runEn && c != 0 {
+				s.preempts++
+			}
 		}
-		running = s.threads[en[c]]
+		running = en[c]
 		s.cur = running
 		running.wake <- struct{}{}
 	}
-	// tear down: abort all parked threads
+	// tear down: release every parked thread in abort mode; each records where it was parked
 	s.abort = true
 	for _, t := range s.threads {
-		if !t.done && t != running {
-			t.wake <- struct{}{}
-			<-s.toSched
-		} else if !t.done && t == running && s.out.Panic == nil {
-			// running thread is parked in point() too (it sent toSched)
+		if !t.done {
 			t.wake <- struct{}{}
 			<-s.toSched
 		}
 	}
-	S = nil
-	return s.out
-}
-
-func descr(p *pending) string {
-	names := []string{"start", "send", "recv", "select", "close", "lock", "rlock", "unlock", "runlock", "wgadd", "wgwait", "yield", "choice"}
-	s := names[p.kind]
-	if n, ok := p.obj.(interface{ Name() string }); ok {
-		s += "(" + n.Name() + ")"
+	if s.out.Deadlock || s.out.Leaked || s.out.Livelock {
+		for _, t := range s.threads {
+			if t.site != "" {
+				s.out.Blocked = append(s.out.Blocked, t.site+"/"+opNames[t.pend.kind])
+			}
+		}
+		sort.Strings(s.out.Blocked)
 	}
-	return s
+	hs := make([]uint64, 0, len(s.threads))
+	for _, t := range s.threads {
+		hs = append(hs, t.hist)
+	}
+	sort.Slice(hs, func(i, j int) bool { return hs[i] < hs[j] })
+	var k uint64 = 7
+	for _, h := range hs {
+		k = mix(k, h)
+	}
+	s.out.Final = k
+	s.out.Threads = len(s.threads)
+	S = nil
+	return s.out, s.diverged
 }
 
 // Yield is an explicit scheduling point (used by harness I/O doubles).
-func Yield() { t := point(pending{kind: OpYield}); t.note(OpYield, 0) }
-
-func Go1[A any](f func(A), a A)                { Go(func() { f(a) }) }
-func Go2[A, B any](f func(A, B), a A, b B)      { Go(func() { f(a, b) }) }
-func Go3[A, B, C any](f func(A, B, C), a A, b B, c C) { Go(func() { f(a, b, c) }) }
+func Yield() {
+	if S == nil {
+		runtime.Gosched()
+		return
+	}
+	t := point(pending{kind: OpYield})
+	t.note(OpYield, 0)
+}
 
 type ordered interface {
 	~int | ~int8 | ~int16 | ~int32 | ~int64 | ~uint | ~uint8 | ~uint16 | ~uint32 | ~uint64 | ~string
 }
 
 // MapKeys returns the keys of m in an order chosen by the explorer (default ascending).
+// In pass-through mode the order is Go's own (random) map order.
 func MapKeys[K ordered, V any](m map[K]V) []K {
 	ks := make([]K, 0, len(m))
 	for k := range m {
 		ks = append(ks, k)
 	}
+	if S == nil {
+		return ks
+	}
 	sort.Slice(ks, func(i, j int) bool { return ks[i] < ks[j] })
-	// choose a permutation by successive selection
 	for i := 0; i < len(ks)-1; i++ {
 		j := i + Choose(len(ks)-i)
 		ks[i], ks[j] = ks[j], ks[i]
